@@ -229,7 +229,7 @@ def oracle(c, base, viol):
     # input data accepted by capture() must actually be offered to the child (not silently dropped)
     toks = c["spec"].split()
     data = [t for t in toks if t.startswith("data:")]
-    if data and toks[-1] == "term:capture" and res in ("ok", "err"):
+    if data and toks[-1] == "term:capture" and res in ("ok", "err") and started:   # (no start, no exchange)
         want = unhx(data[-1][5:])
         wrote = []
         for l in c["log"]:
